@@ -416,7 +416,35 @@ func init() {
 					r.State(fmt.Sprintf("patch-history|len=%d", len(seq)))
 					r.Nontrivial(strings.Join(hist, ";"))
 				}},
-				{Name: "inputs-edited-between-evaluations", N: len(c04EditPrograms), Note: fmt.Sprintf("%d programs x 4 inputs x 7 kinds of in-place edit by the owner of the resource (decimal texts, integers, strings, codes, booleans, dates/times, removal of the last item of every list): evaluate, edit the very same objects, evaluate again on a shared and on a fresh compiled expression - the result is the one a fresh copy of the edited resource gives", len(c04EditPrograms)), Run: func(i int, r *core.Rec) {
+				{Name: "package-level-patch-histories", N: c10Count(len(c04PkgPatchOps()), 3), Note: fmt.Sprintf("all sequences of length <=3 over %d calls of the package-level FHIRPatch helpers (Delete / Replace / Insert / Add with one path text under different compile options: a custom function bound to first(), to last(), not bound, Permissive): each outcome equals that of the same operation through an expression compiled on the spot with the same options", len(c04PkgPatchOps())), Run: func(i int, r *core.Rec) {
+					ops := c04PkgPatchOps()
+					var hist []string
+					for _, oi := range c10Seq(i, len(ops)) {
+						op := ops[oi]
+						hist = append(hist, op.name)
+						run := func(f func(res fhir.Resource) error) string {
+							res := lib.Patient()
+							var err error
+							if pi := core.Try(func() { err = f(res) }); pi != nil {
+								return "PANIC " + pi.Key()
+							}
+							if err != nil {
+								return "error|" + c04Hash(finger04(res))
+							}
+							return "ok|" + c04Hash(finger04(res))
+						}
+						got := run(op.pkg)
+						want := run(op.ref)
+						r.Eval()
+						r.Eval()
+						if got != want {
+							r.Fail("package-level-patch-history|outcome-depends-on-history", core.W{"history": hist, "got": strings.SplitN(got, "|", 2)[0], "through_an_expression_compiled_with_the_same_options": strings.SplitN(want, "|", 2)[0]})
+						}
+					}
+					r.State("package-level-patch-history")
+					r.Nontrivial(strings.Join(hist, ";"))
+				}},
+				{Name: "inputs-edited-between-evaluations", N: len(c04EditPrograms), Note: fmt.Sprintf("%d programs x 5 inputs x 7 kinds of in-place edit by the owner of the resource (decimal texts, integers, strings, codes, booleans, dates/times, removal of the last item of every list): evaluate, edit the very same objects, evaluate again on a shared and on a fresh compiled expression - the result is the one a fresh copy of the edited resource gives", len(c04EditPrograms)), Run: func(i int, r *core.Rec) {
 					src := c04EditPrograms[i]
 					shared, err := fhirpath.Compile(src)
 					if err != nil {
@@ -437,9 +465,14 @@ func init() {
 						r.Eval()
 						return out
 					}
-					for _, rn := range []string{"Patient", "Observation", "Bundle", "PatientWithContained"} {
+					for _, rn := range []string{"Patient", "Observation", "Bundle", "PatientWithContained", "ObservationWithComponents"} {
 						for k, ed := range c04Edits {
-							in := resources[rn]()
+							var in []fhir.Resource
+							if rn == "ObservationWithComponents" {
+								in = []fhir.Resource{c04ObservationWithComponents()}
+							} else {
+								in = resources[rn]()
+							}
 							first := show(shared, in)
 							n := 0
 							for _, res := range in {
@@ -623,10 +656,30 @@ var c04EditPrograms = []string{
 	"Patient.birthDate", "Patient.birthDate < @2000-01-01", "Patient.birthDate.toString()", "Patient.active", "Patient.active.not()", "Patient.gender", "Patient.gender = 'female'", "Patient.telecom.rank", "Patient.telecom.rank.first() + 1",
 	"Patient.telecom.where(rank > 1).value", "Patient.multipleBirth", "Patient.deceased", "Patient.contained.id", "Patient.contained.code.coding.code", "Patient.contained.descendants().count()", "Patient.descendants().count()",
 	"Observation.value", "Observation.value.value", "Observation.value.value * 2", "Observation.value > 1 'mg'", "Observation.value.toString()", "Observation.component.value.distinct().count()", "Observation.component.value.isDistinct()",
-	"Observation.component.value.exclude(Observation.component.value.first()).count()", "Observation.effective", "Observation.effective.toString()", "Observation.issued", "Observation.issued > @2020-01-15T10:30:15Z", "Observation.status",
+	"Observation.component.value.exclude(Observation.component.value.first()).count()", "Observation.component.value.intersect(Observation.component.value.tail()).count()", "Observation.component.extension.value.distinct().count()",
+	"Observation.component.extension.value.isDistinct()", "Observation.component.value.value.distinct()", "Observation.component.extension.value.exclude(Observation.component.extension.value.first()).count()", "Observation.component.value.select($this = Observation.component.value.first())", "Observation.effective", "Observation.effective.toString()", "Observation.issued", "Observation.issued > @2020-01-15T10:30:15Z", "Observation.status",
 	"Observation.code.coding.code", "Observation.component.count()", "Observation.referenceRange.low.value", "Bundle.entry.resource.name.select(given.first() & ' ' & family)", "Bundle.entry.resource.id", "Bundle.entry.count()",
 	"Bundle.entry.fullUrl", "Bundle.entry.resource.where($this is Patient).count()", "%context.id", "children().count()", "iif(%context.id.exists(), %context.id, 'none')", "Patient.name.all(given.count() > 0)", "Patient.name.select(given.count())",
 	"Patient.name.family.upper()", "Patient.name.family.length()", "Patient.name.given.count()", "Patient.text.`div`", "Patient.meta.versionId", "Patient.meta.lastUpdated",
+}
+
+// c04ObservationWithComponents: lists of quantities, decimals, dates and times with and without duplicates
+func c04ObservationWithComponents() *opb.Observation {
+	o := lib.Observation()
+	q := func(v, u string) *opb.Observation_Component_ValueX {
+		return &opb.Observation_Component_ValueX{Choice: &opb.Observation_Component_ValueX_Quantity{Quantity: &dtpb.Quantity{Value: &dtpb.Decimal{Value: v}, Unit: fhir.String(u), Code: fhir.Code(u), System: fhir.URI("http://unitsofmeasure.org")}}}
+	}
+	ext := func(url string, v *dtpb.Extension_ValueX) *dtpb.Extension {
+		return &dtpb.Extension{Url: fhir.URI(url), Value: v}
+	}
+	o.Component = []*opb.Observation_Component{
+		{Value: q("1", "mg"), Extension: []*dtpb.Extension{ext("http://d", &dtpb.Extension_ValueX{Choice: &dtpb.Extension_ValueX_Date{Date: lib.ProtoDate("2020-01-15")}})}},
+		{Value: q("2", "mg"), Extension: []*dtpb.Extension{ext("http://d", &dtpb.Extension_ValueX{Choice: &dtpb.Extension_ValueX_Date{Date: lib.ProtoDate("2021-02-28")}})}},
+		{Value: q("2.0", "mg"), Extension: []*dtpb.Extension{ext("http://t", &dtpb.Extension_ValueX{Choice: &dtpb.Extension_ValueX_DateTime{DateTime: lib.ProtoDateTime("2020-01-15T10:30:15Z")}})}},
+		{Value: &opb.Observation_Component_ValueX{Choice: &opb.Observation_Component_ValueX_DateTime{DateTime: lib.ProtoDateTime("2020-01-15T10:30:15+05:30")}},
+			Extension: []*dtpb.Extension{ext("http://i", &dtpb.Extension_ValueX{Choice: &dtpb.Extension_ValueX_Instant{Instant: lib.ProtoInstant("2020-02-29T10:30:15.250Z")}}), ext("http://n", &dtpb.Extension_ValueX{Choice: &dtpb.Extension_ValueX_Decimal{Decimal: &dtpb.Decimal{Value: "3.5"}}})}},
+	}
+	return o
 }
 
 type c04Edit struct {
@@ -900,6 +953,70 @@ func c04PatchOps() []c04PatchOp {
 		{"Add id on contact name of Organization", "contact[0].name", org, add("text", func() fhir.Base { return fhir.String("t") })},
 		{"Add text on contact name of Patient", "contact[0].name", patient, add("text", func() fhir.Base { return fhir.String("t") })},
 	}
+}
+
+type c04PkgPatchOp struct {
+	name     string
+	pkg, ref func(res fhir.Resource) error
+}
+
+func c04PkgPatchOps() []c04PkgPatchOp {
+	pickFirst := func() fhirpath.CompileOption {
+		return compopts.AddFunction("pick", func(in system.Collection) (system.Collection, error) {
+			if len(in) == 0 {
+				return nil, nil
+			}
+			return system.Collection{in[0]}, nil
+		})
+	}
+	pickLast := func() fhirpath.CompileOption {
+		return compopts.AddFunction("pick", func(in system.Collection) (system.Collection, error) {
+			if len(in) == 0 {
+				return nil, nil
+			}
+			return system.Collection{in[len(in)-1]}, nil
+		})
+	}
+	variants := []struct {
+		name string
+		mk   func() []fhirpath.CompileOption
+	}{{"pick=first", func() []fhirpath.CompileOption { return []fhirpath.CompileOption{pickFirst()} }}, {"pick=last", func() []fhirpath.CompileOption { return []fhirpath.CompileOption{pickLast()} }},
+		{"pick unbound", func() []fhirpath.CompileOption { return nil }}, {"pick=last, Permissive", func() []fhirpath.CompileOption { return []fhirpath.CompileOption{compopts.Permissive(), pickLast()} }}}
+	var out []c04PkgPatchOp
+	for _, v := range variants {
+		v := v
+		via := func(path string, f func(e *patch.Expression, res fhir.Resource) error) func(fhir.Resource) error {
+			return func(res fhir.Resource) error {
+				e, err := patch.Compile(path, v.mk()...)
+				if err != nil {
+					return err
+				}
+				return f(e, res)
+			}
+		}
+		out = append(out,
+			c04PkgPatchOp{"Delete Patient.name.pick() [" + v.name + "]", func(res fhir.Resource) error { return patch.Delete(res, "Patient.name.pick()", v.mk()...) },
+				via("Patient.name.pick()", func(e *patch.Expression, res fhir.Resource) error { return e.Delete(res) })},
+			c04PkgPatchOp{"Replace Patient.name.pick().family [" + v.name + "]", func(res fhir.Resource) error {
+				return patch.Replace(res, "Patient.name.pick().family", fhir.String("Omega"), v.mk()...)
+			},
+				via("Patient.name.pick().family", func(e *patch.Expression, res fhir.Resource) error { return e.Replace(res, fhir.String("Omega")) })},
+			c04PkgPatchOp{"Add given to Patient.name.pick() [" + v.name + "]", func(res fhir.Resource) error {
+				return patch.Add(res, "Patient.name.pick()", "given", fhir.String("Zed"), &patch.Options{CompileOpts: v.mk()})
+			}, via("Patient.name.pick()", func(e *patch.Expression, res fhir.Resource) error { return e.Add(res, "given", fhir.String("Zed")) })},
+		)
+	}
+	out = append(out, c04PkgPatchOp{"Insert Patient.name.given at 0", func(res fhir.Resource) error {
+		return patch.Insert(res, "Patient.name[0].given", fhir.String("Zed"), 0)
+	},
+		func(res fhir.Resource) error {
+			e, err := patch.Compile("Patient.name[0].given")
+			if err != nil {
+				return err
+			}
+			return e.Insert(res, fhir.String("Zed"), 0)
+		}})
+	return out
 }
 
 func c04PatchOutcome(op c04PatchOp, e *patch.Expression) string {
